@@ -108,6 +108,8 @@ func classMod48(n int) int {
 type c08Dec struct {
 	Text     []byte      `json:"text"`
 	Delivery hx.Delivery `json:"delivery"`
+	// Plan: sizes of the buffers handed to Read (cycled); nil = io.ReadAll
+	Plan []int `json:"plan,omitempty"`
 }
 
 // normaliseArmor applies only the documented tolerances.
@@ -137,7 +139,13 @@ func normaliseArmor(text string) string {
 func c08CheckDecode(c c08Dec, st *stats.Run, count bool) error {
 	src, _ := hx.NewReader(c.Text, c.Delivery)
 	r := armor.NewReader(src)
-	got, err := io.ReadAll(r)
+	var got []byte
+	var err error
+	if c.Plan == nil {
+		got, err = io.ReadAll(r)
+	} else {
+		got, err = readAllPlan(r, c.Plan)
+	}
 	hasBegin := bytes.HasPrefix(bytes.TrimLeft(c.Text, " \t\r\n"), []byte(refage.ArmorHeader))
 	if err == nil {
 		if count {
@@ -205,6 +213,8 @@ var c08Lines = []string{
 	"QUF=",                // non-canonical trailing bits
 	c08Full + "QUFB",      // 68 columns
 	c08Full[:60] + "QUE=", // 64 columns ending in padding (47 bytes)
+	c08Full[:60] + "QUF=", // the same with non-zero spare bits
+	c08Full[:60] + "QR==", // 64 columns, two padding characters, non-zero spare bits
 	"",
 	"  ",
 	"Proc-Type: 4,ENCRYPTED",
@@ -472,6 +482,32 @@ func TestC08(t *testing.T) {
 		for i, n := 0, rapid.IntRange(1, 2).Draw(t, "nmut"); i < n; i++ {
 			text = c08Mutate(t, text)
 		}
-		return c08Dec{Text: text, Delivery: genDelivery(t)}
+		c := c08Dec{Text: text, Delivery: genDelivery(t)}
+		if rapid.Bool().Draw(t, "readPlan") {
+			c.Plan = rapid.SampledFrom([][]int{{1}, {16}, {40}, {47}, {48}, {49}, {100}, {47, 1000}, {0, 3}, {-1}}).Draw(t, "plan")
+		}
+		return c
+	}, dec)
+	// a short or padded line in the middle of a long body, read with buffers around 48 bytes
+	pbt.Each(s, "decode-mid-short-line", func(yield func(c08Dec)) {
+		n := 0
+		for _, bad := range []string{"QUFB", "QUE=", c08Full[:60] + "QUE="} {
+			for _, at := range []int{0, 1, 3, 10, 11, 12, 30} {
+				var sb strings.Builder
+				sb.WriteString(refage.ArmorHeader + "\n")
+				for i := 0; i < 32; i++ {
+					if i == at {
+						sb.WriteString(bad + "\n")
+					}
+					sb.WriteString(c08Full + "\n")
+				}
+				sb.WriteString(refage.ArmorFooter + "\n")
+				for _, plan := range [][]int{nil, {1}, {16}, {40}, {47}, {48}, {100}, {-1}} {
+					yield(c08Dec{Text: []byte(sb.String()), Delivery: hx.Delivery{Mode: "whole"}, Plan: plan})
+					n++
+				}
+			}
+		}
+		s.St.Exhaust("a short, a padded and a padded full-width line at 7 positions inside a 32-line body x 8 ways of reading (io.ReadAll, io.Copy, buffers of 1..100 bytes)", int64(n))
 	}, dec)
 }
